@@ -25,6 +25,7 @@ var craftedSpecs = []struct{ name, spec string }{
 	// Tree -> Tree cycle below the field and re-boxes the field with a wrapper that is never emitted; also a security
 	// requirement naming an implemented and an unimplemented scheme (repaired, F-C02-F4)
 	{"optional-nullable-object-over-recursive-component", `{"openapi":"3.0.3","info":{"title":"t","version":"1"},"paths":{"/x":{"get":{"operationId":"op0","responses":{"200":{"description":"r","content":{"application/json":{"schema":{"type":"object","properties":{"id0":{"$ref":"#/components/schemas/Thing5"}}}}}}}}}},"components":{"schemas":{"Thing5":{"type":"object","nullable":true,"properties":{"name0":{"$ref":"#/components/schemas/Tree4"}}},"Tree4":{"type":"object","properties":{"children":{"type":"array","items":{"$ref":"#/components/schemas/Tree4"}},"parent":{"$ref":"#/components/schemas/Tree4"}}}}}}`},
+	{"json-and-form-body-share-nested-object", `{"openapi":"3.0.3","info":{"title":"t","version":"1"},"paths":{"/items":{"post":{"operationId":"createItem","requestBody":{"required":true,"content":{"application/json":{"schema":{"$ref":"#/components/schemas/Item"}},"application/x-www-form-urlencoded":{"schema":{"$ref":"#/components/schemas/Item"}}}},"responses":{"200":{"description":"ok"}}}},"/up":{"post":{"operationId":"upload","requestBody":{"required":true,"content":{"application/json":{"schema":{"$ref":"#/components/schemas/Item2"}},"multipart/form-data":{"schema":{"$ref":"#/components/schemas/Item2"}}}},"responses":{"200":{"description":"ok"}}}}},"components":{"schemas":{"Item":{"type":"object","properties":{"n":{"type":"string"},"inner":{"type":"object","properties":{"name":{"type":"string"}}}}},"Item2":{"type":"object","properties":{"n":{"type":"string"},"inner":{"type":"object","properties":{"name":{"type":"string"}}},"list":{"type":"array","items":{"type":"integer"}}}}}}}`},
 	{"ok-and-default-response-same-nullable-primitive", `{"openapi":"3.0.3","info":{"title":"t","version":"1"},"paths":{"/a":{"get":{"operationId":"a","responses":{"200":{"description":"r","content":{"application/json":{"schema":{"type":"integer","format":"int32","nullable":true}}}},"default":{"description":"r","content":{"application/json":{"schema":{"type":"integer","format":"int32","nullable":true}}}}}}},"/b":{"get":{"operationId":"b","responses":{"200":{"description":"ok"}}}}}}`},
 }
 
